@@ -8,17 +8,30 @@ PROP_FILE = "Props/C01.v"
 THEOREMS = ["C01_document_stream_well_formed", "C01_monitor_tracks_engine", "C01_run_structure", "C01_all_stopped_when_idle"]
 COQ_IMPORTS = dc.COQ_IMPORTS
 RULE = dc.RULE + " || C01 additionally re-runs a deterministic sample (every 5th case) with the raw documents kept: uid uniqueness, references, event_model JSON schema"
-cases = dc.cases
 coq_term = dc.coq_term
 
 
+def cases(rng, tier):
+    # + oracle-only families (not in the engine model): raising subscribers, monitored signals
+    return dc.cases(rng, tier) + dc.engine_cases_docs.gen_subscribers(rng, tier) + dc.engine_cases_docs.gen_monitors(rng, tier)
+
+
 def impl_batch(cases_):
-    obs = ec.impl_batch(cases_)
-    sample = [c for i, c in enumerate(cases_) if i % 5 == 0]
-    info = dc.docinfo_batch(sample)
+    plain = [c for c in cases_ if c.get("oracle_only") != "docs"]
+    special = [c for c in cases_ if c.get("oracle_only") == "docs"]
+    obs = dict(zip((dc.case_key(c) for c in plain), ec.impl_batch(plain)))
+    sample = [c for i, c in enumerate(plain) if i % 5 == 0]
+    info = dc.docinfo_batch(sample + special)      # the special ones come back with their whole observation
     out = []
-    for c, o in zip(cases_, obs):
-        r = info.get(dc.case_key(c))
+    for c in cases_:
+        k = dc.case_key(c)
+        if c.get("oracle_only") == "docs":
+            o = dict(info[k])
+            o["raw_docs"] = {"errors": o.get("errors", []), "verdict": o.get("verdict")}
+            out.append(o)
+            continue
+        o = obs[k]
+        r = info.get(k)
         if r is not None:
             o = dict(o)
             o["raw_docs"] = r
@@ -34,6 +47,12 @@ def oracle(case, obs):
     why = dc.docs_monitor.first(res, ("grammar",))
     if why:
         return why
+    sr = case.get("sub_raise")
+    if sr and not sr.get("ignore") and sr.get("on") == "stop":
+        # a consumer raising on the stop document with exceptions not ignored is C19's recorded finding C19-a
+        # (later consumers miss that stop; the engine's re-close meets the poison pill): outside C01's hypothesis
+        # "callbacks do not raise on the stop" -- the document grammar above is still required
+        return None
     outs = ec.outs_of(obs)
     if outs and outs[-1]["state"] == "idle":
         # once the RunEngine is idle again: exactly one stop for every started run
